@@ -12,12 +12,14 @@ CONFIG = {
                  "fav.FavRaw.WriteFavrec", "fav.ReadFavrec", "fav.Load (regular .fav file)", "fav.FavRaw.Save/checkIsToSave",
                  "types.BinRead/BinWrite (padding to the C struct size; the reader seeks over the pad)",
                  "ptt.WriteFavorites (temp file + rename)",
+                 "write-error path of Save / WriteFavorites: the first failing write ends the save with an error return before the rename (types.BinaryWrite returning binary.Write's error is regenerated from the source)",
                  "ptt.GetFavorites (absent file, not-modified answer, io.ReadAll with the read limit regenerated from the source)",
                  "overlapping savers: open(O_CREAT|O_TRUNC)/write/rename on names, inodes and descriptors, any interleaving"],
     "assumptions": [
         "trees are grown from NewFavRaw(nil) (LineID/FolderID equal NLines/NFolders; Root.FavNum is the number of adds); entry types other than board/line/folder and nil Favh entries are not representable",
         "the legacy .fav4 migration path (TryFav4Load) and Load on a non-regular file are out of scope",
         "a crash is the death of the process; the kernel and the file system keep running",
+        "write errors are produced with RLIMIT_FSIZE (EFBIG at a byte offset, SIGXFSZ ignored) in a child process; ENOSPC / EDQUOT / EIO take the same error-return path in the code and are not produced separately",
         "GetFavorites: mtimes and retrieveTS are positive Time4 values; the .fav4 fallback of getFavoritesGetMTime is out of scope (no .fav4 present); contents longer than the largest legal file (57350 bytes) are recorded, not judged",
         "temporary names of overlapping savers are distinct because each contains types.GetRandom() (a random UUID): pinned from the source by tmp_names_random; a collision of two random 128-bit suffixes is not considered; .fav and the temporary names are not hard links of one another",
         "ReadFavrec recurses once per nesting level with no depth limit (FAV_MAXDEPTH is unused): the model has no stack bound; a 168 MB file nested 3,000,000 deep was loaded by the real code without exhausting the goroutine stack (measured once by hand), deeper files were not examined",
